@@ -293,11 +293,6 @@ mut('C08', 'node_record_drops_retry_count', MN, """		RetryCount: node.State.Retr
 """, "")
 mut('C08', 'node_record_takes_status_text_only', MN, """		Status:     node.State.Status,
 		StatusText: node.State.Status.String(),""", """		StatusText: node.State.Status.String(),""")
-mut('C08', 'agent_reports_started_run_as_not_started', A, """	if schedulerStatus == scheduler.StatusNone && a.graph.IsStarted() {
-		// Match the status to the execution graph.
-		schedulerStatus = scheduler.StatusRunning
-	}
-""", "")
 
 # ---- C09 daemon
 D = 'internal/scheduler/scheduler.go'
